@@ -738,6 +738,8 @@ class Interp:
                 if e is not True:
                     conj.append(e)
             return z3.And(*conj) if conj else True
+        if isinstance(a, SOpaque) and isinstance(b, SOpaque) and hasattr(a, "opaque_eq"):
+            return True if a is b else a.opaque_eq(self, b)
         if type(a) in (SObj, SList, SDict, SSet, SOpaque, SFunc) or type(b) in (SObj, SList, SDict, SSet, SOpaque, SFunc):
             if isinstance(a, SOpaque) and isinstance(b, SOpaque):
                 if a is b:
@@ -1181,7 +1183,11 @@ class Interp:
         # three continuations, chosen non-deterministically: (a) exit after exhaustion, (b) one generic iteration
         which = 0 if self.branch_free() else 1
         for name, gen in spec.havoc.items():
-            fr.locals[name] = gen(self)
+            # a generator taking (I, current value) may havoc a mutable object in place (keeps aliasing intact)
+            if len(inspect.signature(gen).parameters) >= 2:
+                fr.locals[name] = gen(self, fr.locals.get(name))
+            else:
+                fr.locals[name] = gen(self)
         if which == 0:
             self.assume(_b(spec.inv(self, fr.locals, seq.base)))
             return
@@ -1219,6 +1225,9 @@ class Interp:
         r, s = self._check([neg])
         self.loop_obligations.append((what, r == z3.unsat))
         if r != z3.unsat:
+            import os
+            if os.environ.get("PYVC_DEBUG_INV") and r == z3.sat:
+                print("INV-CEX", what, "\n  cond:", cond, "\n  model:", s.model())
             raise LoopInvariantFailure(what + (": solver returned unknown" if r == z3.unknown else ": counterexample exists"))
 
     def exec_for_generic(self, st, fr, seq):
@@ -1415,6 +1424,8 @@ class Interp:
             obj.fields[name] = v
             return
         if isinstance(obj, SOpaque):
+            if hasattr(obj, "setattr"):
+                return obj.setattr(self, name, v)
             obj.attrs[name] = v
             return
         raise Unsupported(f"attribute assignment on {type(obj).__name__}")
